@@ -50,6 +50,7 @@ func main() {
 		{"RingHelpersGen.v", genRingHelpers},
 		{"QuadTreeGen.v", genQuadTree},
 		{"GpkgWriterGen.v", genGpkgWriter},
+		{"TmsAddrGen.v", genTmsAddr},
 	}
 	failed := false
 	for _, g := range gens {
